@@ -46,6 +46,18 @@ func MarshalConf(c *configs.SchedulerConfig) string {
 	return string(b)
 }
 
+// WithResolver returns the configuration with the user/group resolver of every partition set to typ.
+func WithResolver(y string, typ string) (string, bool) {
+	conf, err := configs.LoadSchedulerConfigFromByteArray([]byte(y))
+	if err != nil {
+		return y, false
+	}
+	for i := range conf.Partitions {
+		conf.Partitions[i].UserGroupResolver.Type = typ
+	}
+	return MarshalConf(conf), true
+}
+
 var queueNamePool = []string{"a", "ab", "b", "a_b", "x1", "q", "dev", "prod", "Batch", "Q2", "A"}
 
 type confGen struct {
